@@ -57,6 +57,12 @@ def Res.errStr {α} : Res α → Str
   | .ok _ => Str.empty
   | .err e => e
 
+/-- `Result::unwrap` (the `Err` case is a panic in Rust; callers prove it unreachable) -/
+def Res.unwrapD {α} [Inhabited α] : Res α → α
+  | .ok a => a
+  | .err _ => default
+@[simp] theorem Res.unwrapD_ok {α} [Inhabited α] (a : α) : (Res.ok a).unwrapD = a := rfl
+
 @[simp] theorem Res.isErr_ok {α} (a : α) : (Res.ok a).isErr = false := rfl
 @[simp] theorem Res.isErr_err {α} (e : Str) : (Res.err e : Res α).isErr = true := rfl
 @[simp] theorem Res.errStr_err {α} (e : Str) : (Res.err e : Res α).errStr = e := rfl
@@ -80,6 +86,16 @@ def ResV.errVal {ε α} [Inhabited ε] : ResV ε α → ε
 
 /-- `Option::unwrap` on a value the code has just made `Some` (the `None` case is a panic site of C04's model) -/
 def unwrapD {α : Type} [Inhabited α] (o : Option α) : α := o.getD default
+
+/-- one call of a validator's `report_error(msg, word)`: the position it attaches (the tracker's current word position), the message
+    and the quoted word; `each = true` stands for `msgs.into_iter().for_each(|m| report_error(m, word))` over a `Vec<String>` whose
+    messages carry the codes `msg.codes` (one report per code) -/
+structure Report where
+  pos : Nat
+  msg : Str
+  word : Bytes
+  each : Bool
+  deriving DecidableEq, Repr
 
 /-- `x as i<w>` for an unsigned `x < 2^w`: two's complement -/
 def toSigned (w x : Nat) : Int := if x < 2^(w-1) then (x : Int) else (x : Int) - (2^w : Nat)
